@@ -30,7 +30,7 @@ TECHNIQUE = "property-based testing: exhaustive assignments per generated formul
 
 
 def budget(tier):
-    return {"examples": 1600 if tier == "quick" else 12000,
+    return {"examples": 6000 if tier == "quick" else 40000,
             "soft_seconds": 200 if tier == "quick" else 2000}
 
 
